@@ -1039,9 +1039,11 @@ func c03r11(w *World, rr *RuleRun) {
 		}
 		return false
 	}
-	for _, dq := range w.doQuerySites(t) {
+	for _, dq0 := range w.doQuerySites(t) {
+		// the instruction whose value is the query result in the goroutine's own function: the
+		// DoQuery call, or the call of an extracted helper that returns DoQuery's result
+		dq, res := w.liftResultSite(dq0)
 		fn := dq.Parent()
-		res := w.TS.Of(dq)
 		for _, lf := range listFields {
 			lf := lf
 			var sites []ssa.Instruction
@@ -1111,4 +1113,41 @@ func c03r11(w *World, rr *RuleRun) {
 		return c != nil && c.StaticCallee() == addLocked
 	})
 	rr.Oblige(shortFuncName(addNodes), "AddNodes offers every element of its argument to the frontier", w.P.Pos(addNodes.Pos()), okA, whyA)
+}
+
+// liftResultSite: starting from a call whose value is of interest, climb through unexported helpers
+// with a single synchronous call site that return exactly that value; returns the call instruction
+// in the outermost such caller and the term of its value there.
+func (w *World) liftResultSite(call *ssa.Call) (ssa.Instruction, *Term) {
+	var site ssa.Instruction = call
+	resT := w.TS.Of(call)
+	for depth := 0; depth < 3; depth++ {
+		f := site.Parent()
+		if f.Parent() != nil || f.Object() == nil || f.Object().Exported() {
+			break
+		}
+		var es []*Edge
+		for _, e := range w.CG.CallersOf(f) {
+			if !e.Callback {
+				es = append(es, e)
+			}
+		}
+		if len(es) != 1 || es[0].Mode != ModeSync {
+			break
+		}
+		returnsRes := true
+		eachInstr([]*ssa.Function{f}, func(_ *ssa.Function, ins ssa.Instruction) {
+			if r, ok := ins.(*ssa.Return); ok {
+				if len(r.Results) != 1 || !termEq(w.TS.Of(r.Results[0]), resT) {
+					returnsRes = false
+				}
+			}
+		})
+		cv, isVal := es[0].Site.(ssa.Value)
+		if !returnsRes || !isVal {
+			break
+		}
+		site, resT = es[0].Site, w.TS.Of(cv)
+	}
+	return site, resT
 }
